@@ -58,7 +58,7 @@ def gen(r, tier, i):
             p['toggle'] = r.choice([0, 0, 1, 2, 3])
         procs.append(p)
     calls = sched.gen_calls(r, 'dyadic' if grid == 'dyadic' else 'decimal', gprec, maxcalls=6,
-                            end_with_update=r.random() < 0.5)
+                            end_with_update=r.random() < 0.5, zero=True)
     calls = sched.cap_events(r, procs, calls, 'dyadic' if grid == 'dyadic' else 'decimal', gprec)
     if grid == 'dyadic':
         t0 = r.choice([0, 0, 0.0, 1.5, 10.0, 100.25])
@@ -139,7 +139,12 @@ def run(spec):
         elif ev[0] == 'exception':
             V.check('no_exception', False, lambda: ('run_for/update raised', ev[1], ev[2], cur_call))
     rows = [ev[2] for ev in m.events if ev[0] == 'emit' and ev[1] == 'history']
-    V.check('rows_increasing', all(b > a for a, b in zip(rows, rows[1:])) and (not rows or rows[0] == spec['t0']),
+    # (a time may repeat only when an empty forced interval completed left-behind processes at a time
+    # that already had a row)
+    from vmon.sensors import superseded_rows
+    sup = superseded_rows(m.events)
+    V.check('rows_increasing', all(b > a or (b == a and sup[i]) for i, (a, b) in enumerate(zip(rows, rows[1:]))) and
+            (not rows or rows[0] == spec['t0']),
             lambda: ('history row times not strictly increasing from the initial time', rows[:40]))
     if prec is not None:
         V.check('on_grid', all(round(t, prec) == t for t in rows), lambda: ('row time off the grid', rows[:40]))
